@@ -295,6 +295,14 @@ func typeName(t types.Type) string {
 		if strings.HasPrefix(p.Path(), "internal/") {
 			return "i" + p.Name()
 		}
+		// a third-party / module package that shares its name with a standard
+		// library package (go.uber.org/atomic vs sync/atomic) must not share
+		// its sort and heap names
+		if stdlibTwin[p.Name()] {
+			if first := strings.SplitN(p.Path(), "/", 2)[0]; strings.Contains(first, ".") {
+				return "x" + p.Name()
+			}
+		}
 		return p.Name()
 	})
 	return smtIdent(s)
